@@ -42,6 +42,38 @@ CHECKS = {
    technique="translation validation over enumerated programs x 8 translators: sqlparser's dialect parsers as acceptance oracle, the library's own dialect readers for read-back, in-process SQLite for the one executable dialect",
    text="Every compiled E-sql relation (quick: every second one) and the DP rewriting of every aggregate query, plus identifiers with spaces, reserved words and quotes, is rendered by each of the eight translators; the text must be accepted by sqlparser's parser for that dialect as exactly one query; for the seven reading translators the read-back relation must have the same column names, order and types; the SQLite rendering must execute on SQLite with the results of the PostgreSQL rendering.",
    note="Acceptance is judged by sqlparser's dialect parsers, not by the real engines. The 'same results' clause is decided for SQLite only; it is NOT decided for the other seven dialects (no engine offline). Signatures are per dialect, failure class and query feature tags."),
+ "C01": dict(level="exploration", design="2/C01",
+   technique="bounded exhaustive enumeration of neighbouring database pairs: every DP query of the enumeration x DpParameters grid x every database instance x every privacy unit removed, pre-noise aggregate vectors materialised node by node on in-process SQLite and compared with the clip bound read from the DP relation",
+   text="For every query of the DP enumeration (COUNT/SUM/AVG/VAR/STDDEV, distinct variants, group by private / public keys, joins along the privacy-unit path, filters, ranges containing zero / negative / NULL) and every point of a DpParameters grid, the relation returned by the real rewrite_with_differential_privacy is analysed (dpir.rs) to find each noised column, its sigma and the clip bound C = sigma / multiplier; the node feeding the noise is materialised on SQLite for every database instance D of a tiny world and for D minus each privacy unit; the Euclidean norm of the difference over all groups must be <= C (1e-9 relative).",
+   note="Trusted: SQLite + shim; the IR reader dpir.rs (pattern: column + sigma * gaussian noise expression), cross-checked by the count of noised columns expected per query. Databases are bounded to <= 3-4 rows; larger per-unit row counts are covered through the multiplicity parameter grid only."),
+ "C03": dict(level="exploration", design="2/C03",
+   technique="bounded exhaustive enumeration of DP queries x DpParameters grid: mechanisms read from the real DP relation matched one by one against the returned DpEvent, with independently re-implemented Gaussian / tau calibration",
+   text="For every DP query x DpParameters grid point, every noised column and every tau-threshold found in the returned relation must be matched by an entry of the returned privacy event: recorded noise multiplier <= sigma/C of the query, thresholding recorded with >= the epsilon, delta used; and sigma must be >= the analytic / classical Gaussian calibration (re-implemented in the harness) for the per-aggregate share of the budget, tau >= the reference tau.",
+   note="Trusted: reference calibration formulas (dpchecks.rs, 60 lines); dpir.rs reader. Composition across queries is not in scope."),
+ "C05": dict(level="exploration", design="2/C05",
+   technique="bounded exhaustive enumeration: every E-sql query accepted by privacy-unit rewriting x every database x every unit, rewritten relation executed on in-process SQLite on D and on D restricted to the unit",
+   text="Every E-sql query (quick: every fourth) is rewritten by the real rewrite_as_privacy_unit_preserving under both strategies; for every database instance D and every unit u the rows of the rewritten relation on D attributed to u must equal, as a multiset, its rows on D with all protected rows not owned by u deleted; every row carries non-null unit id and weight.",
+   note="Trusted: SQLite + shim; ownership of rows follows the declared privacy-unit paths (dangling foreign keys own nothing). Quick uses the compact world (2-value domains)."),
+ "C09": dict(level="translation_validation", design="2/C09",
+   technique="translation validation over exhaustively enumerated (DP query x parameter grid x database) with the random source scripted to zero noise: DP relation vs original query on in-process SQLite",
+   text="With RANDOM() scripted so that every Gaussian draw is 0, for every DP query x every database instance inside the declared ranges whose per-unit multiplicity fits the clipping bound and whose groups survive (public keys, or thresholds disabled by the parameters), the DP relation and the original query return the same groups with the same COUNT/SUM/AVG and variance / stddev within 1e-6.",
+   note="Trusted: SQLite + shim, the scripted random source (Box-Muller arguments giving exact 0). Preconditions (in-range, multiplicity, no dangling foreign keys) are checked per database and skipped cases are counted."),
+ "C02": dict(level="model_checking", design="2/C02",
+   technique="exhaustive enumeration of every consistent rule derivation the real setter / eliminator / selector produce (label-path invariant on each) plus a bounded exhaustive information-flow test: returned relation executed on every neighbouring database pair under a scripted random source",
+   text="(a) Rule level: for every E-sql relation x protected-table assignment x synthetic data {none, full, partial} x strategy, ALL derivations enumerated by the real rule machinery are walked: rule inputs equal the children's labels, no Public/Published label above Private/PUP rows without a DP node in between, DP only on a Reduce over PUP, protected tables never Public, SD never over Private/PUP. (b) Behavioural: the relation returned by rewrite_with_differential_privacy (DP queries and plain queries published through synthetic data) is materialised on every database D and D minus each unit; every output cell / row presence that follows the protected rows must also move when the scripted random source changes, otherwise it is a plain function of protected rows.",
+   note="Trusted: SQLite + shim, the scripted RANDOM(). (b) cannot tell how much noise there is (C01/C03/C04 do). Partial synthetic-data maps make the unchanged library panic (left to C18)."),
+ "C04": dict(level="fault_enumeration", design="2/C04",
+   technique="deviation-bounded exhaustive enumeration of the random source's answers (scripted RANDOM()) x all database instances, with the key-release pipeline of the real DP relation materialised node by node on in-process SQLite",
+   text="For every grouped DP query (private / mixed / computed / nullable keys, foreign-key path, direct weighted privacy units) x Cu x every database instance x every random script with <= 1 (thorough 2) deviations from the zero-noise answer among the first K draws: the contribution-limited (key, unit) table, the per-key unit count, the noisy count and the threshold filter are read back and checked: counts equal distinct units in the limited table and never exceed the distinct units in the database (hand-written ground-truth SQL), no unit holds more than Cu groups, a key passes only if its noisy count in that execution exceeds the tau literal, released private keys passed the filter, singleton keys are never released with zero noise.",
+   note="The value of tau and sigma_count against (epsilon, delta) is decided by C03. Scripts deviate in the first K <= 10 draws only; probability statements are not decided (only the deterministic pipeline for each drawn noise)."),
+ "C13": dict(level="model_checking", design="2/C13",
+   technique="exhaustive enumeration of rule assignments: an independent reference enumerates / counts all consistent derivations of the rule-annotated tree and the real search (observed through hook events candidate / selected / rewritten) is compared on every tree",
+   text="For every E-sql relation (quick: every third) x protected-table assignment x synthetic data on/off x entry point (DP, PUP hard/soft): the rule lists the real setter attaches are copied; an independent recursion enumerates every consistent assignment (one rule per node, inputs = children's outputs) with its score; the real compiler must return Ok exactly when an acceptable-root derivation exists (UnreachableProperty otherwise), the derivation it applies (hook H2) must be consistent at every node and no consistent derivation may have a strictly higher score.",
+   note="Scores are the library's own (the property is relative to them). Hook events come from the cfg-guarded qrlew::verif module."),
+ "C16": dict(level="model_checking", design="2/C16",
+   technique="explicit-state search over histories of earlier compilations (states = snapshots of the process-wide name counter, restored through a hook), a cooperative scheduler exploring all interleavings of naming operations up to a preemption bound, and exhaustive render -> parse -> render fixpoint over E-sql",
+   text="(a) BFS over counter states reachable by polluting operations (compilations using VALUES / random(), PUP and DP rewritings) to depth 2 (thorough 3): in EVERY reachable state every E-sql compilation must give the output it gives from the initial state, and rendering twice gives the same text. (b) all schedules of 2-3 threads calling namer::new_id / compiling concurrently, switching at the counter's lock (hook sched_point), preemption bound 2 (thorough 4): ids per prefix distinct and dense, compile output independent of the schedule; each schedule replayed once for determinism. (c) every E-sql relation: rendered SQL is re-parsed and re-rendered; schema (names, order, types) equal, results equal on SQLite on every small database.",
+   note="Determinism of the PUP / DP rewritings is explored too but only reported as an observation: the statement is about parsing and rendering. Threads are real OS threads serialised by the hook; memory-model effects are not explored (the counter is a Mutex)."),
 }
 NOT_YET = {}
 def main():
@@ -73,7 +105,7 @@ def main():
             "enable": "the harness depends on qrlew by path with features [\"sqlite\", \"qrlew_verif\"] (harness/Cargo.toml); cargo build --features qrlew_verif in /repo",
             "baseline_off_cmd": "/verif/baseline_off.sh",
             "source_commits": ["80602cb"],
-            "fix_commits": ["11afd7c", "f09b54c", "2b20237", "0e4f4eb"],
+            "fix_commits": ["11afd7c", "f09b54c", "2b20237", "0e4f4eb", "3b8a08b", "3aeabf5", "eb6a376"],
             "add_only": True,
         },
         "engines": [{"name": "qv", "path": "/verif/harness", "serves_properties": sorted(CHECKS), "kind_free_text": "Rust binary linking the real qrlew crate from /repo's working tree; deterministic exhaustive enumerators, explicit-state search (stateright), in-process SQLite as independent SQL semantics"}],
